@@ -351,7 +351,7 @@ impl Check for C02Check {
     fn rule(&self) -> String {
         format!(
             "Operator sequences over all {} operators of the independent table (binary incl. implicit space list, comma list, pair, conditionals, apply forms, separators; prefix; suffix; backtick prefix/suffix/infix identifiers): \
-             every ordered pair x 4 layout/atom variants and every ordered triple x 2 variants exhaustively (thorough adds every 4-sequence of level representatives), operands inserted where the fixities need them; level-representative triples with one operand wrapped in ( ) / { } or replaced by an empty bracket pair (which is an operand all the same); random deeper expressions with groups and nested expressions from a proptest tape. \
+             every ordered pair x 4 layout/atom variants and every ordered triple x 2 variants exhaustively (thorough adds every 4-sequence of level representatives), operands inserted where the fixities need them; level-representative triples with one operand wrapped in ( ) / {{ }} or replaced by an empty bracket pair (which is an operand all the same); random deeper expressions with groups and nested expressions from a proptest tape. \
              Oracle: (i) the S-expression of parse(lex(text)) equals the tree of a reference precedence-climbing parser driven only by the table; (ii) printing the obtained tree fully parenthesised and re-parsing gives the same tree modulo Group nodes. \
              Sequences whose fixities cannot follow each other, layouts in which the lexer merges tokens, and inputs the parser rejects are counted, not judged. Non-trivial = accepted sequence with >= 2 operators; distinct = distinct (operator sequence, variant).",
             OPS.len()
